@@ -1,11 +1,13 @@
 #!/bin/bash
-# usage: run_all.sh [tier] [props...]  -- runs the checks one after the other on /repo, one summary line each
-cd /verif
+# usage: run_all.sh [tier] [props...]  -- runs the checks one after the other, one summary line each
+# (in the copy of /verif this script belongs to; against $VERIF_REPO or /repo)
+cd "$(dirname "$0")/.." || exit 3
 tier=${1:-quick}; shift
 props="$@"
-[ -z "$props" ] && props=$(python3 -c "import json;print(' '.join(c['property_id'] for c in json.load(open('/verif/MANIFEST.json'))['checks']))")
+[ -z "$props" ] && props=$(python3 -c "import json;print(' '.join(c['property_id'] for c in json.load(open('MANIFEST.json'))['checks']))")
+mkdir -p out
 for p in $props; do
-  ./check $p $tier > /tmp/all_$p.log 2>&1; rc=$?
-  echo "$p rc=$rc $(grep -c '^VIOLATION' /tmp/all_$p.log)viol $(grep -c '^KNOWN-FINDING' /tmp/all_$p.log)kf $(grep '^BROKEN' /tmp/all_$p.log | cut -c1-160) $(grep '^property=' /tmp/all_$p.log | cut -d' ' -f3-)"
+  ./check $p $tier > out/all_$p.log 2>&1; rc=$?
+  echo "$p rc=$rc $(grep -c '^VIOLATION' out/all_$p.log)viol $(grep -c '^KNOWN-FINDING' out/all_$p.log)kf $(grep '^BROKEN' out/all_$p.log | cut -c1-160) $(grep '^property=' out/all_$p.log | cut -d' ' -f3-)"
 done
 echo all-done
